@@ -22,7 +22,7 @@ func init() {
 	register(&Rule{ID: "C19.a", Doc: "width-fact typestate over token construction sites", Floor: 40, Run: c19a})
 	register(&Rule{ID: "C19.b", Doc: "readChar line/column reset; end-of-input test shared by readChar and peekChar", Floor: 8, Run: c19b})
 	register(&Rule{ID: "C19.c", Doc: "whitespace and comments skipped before dispatch; whitespace and comment opener sets", Floor: 4, Run: c19c})
-	register(&Rule{ID: "C19.e", Doc: "character classes of the lexer: isLetter = Unicode letters and '_', isHexDigit = [0-9a-fA-F] (evaluated from their definitions over U+0000..U+02FF)", Floor: 2, Run: c19e})
+	register(&Rule{ID: "C19.e", Doc: "character classes of the lexer: isLetter = Unicode letters and '_', isHexDigit = [0-9a-fA-F] (evaluated from their definitions over U+0000..U+2FFFF)", Floor: 2, Run: c19e})
 	register(&Rule{ID: "C19.d", Doc: "keyword table equals the documented keyword list", Floor: 30, Run: c19d})
 }
 
@@ -272,7 +272,15 @@ func c19a(c *Ctx) {
 					continue
 				}
 				res := g.Signature.Results()
-				if res.Len() != 1 || !typeIs(res.At(0).Type(), "token", "Token") || g.Signature.Recv() == nil {
+				if res.Len() != 1 || !typeIs(res.At(0).Type(), "token", "Token") {
+					continue
+				}
+				if g.Signature.Recv() == nil {
+					// a plain function that is handed counters and returns a token: its columns are
+					// whatever the caller computed; the typestate does not follow them through the
+					// parameters, so such a constructor (other than the single-character one, whose
+					// call sites clause B judges) is reported as undecided rather than passed over
+					c.Unk(fmt.Sprintf("%s/helper[%s]/plain-constructor", e.prefix, g.Name()), c.W.Pos(ci.Pos()), "the token of this arm is built by the plain function "+g.Name()+" from values its caller computes: the width-fact typestate does not judge positions passed as parameters (only the single-character constructor's call sites are judged)")
 					continue
 				}
 				key := fmt.Sprintf("%s/helper[%s]", e.prefix, g.Name())
@@ -1064,7 +1072,7 @@ func c19d(c *Ctx) {
 }
 
 // c19e: the lexer's own character classes, which the other lexer rules use as vocabulary. Each
-// definition is summarised and evaluated, rune by rune over U+0000..U+02FF, against the class it
+// definition is summarised and evaluated, rune by rune over U+0000..U+2FFFF (planes 0-2: every script the Unicode tables list letters for), against the class it
 // stands for (however the class is spelled: comparisons, a switch, a digit table).
 func c19e(c *Ctx) {
 	for _, x := range []struct {
@@ -1086,7 +1094,10 @@ func c19e(c *Ctx) {
 			continue
 		}
 		bad := ""
-		for r := rune(0); r < 0x300 && bad == ""; r++ {
+		for r := rune(0); r <= 0x2FFFF && bad == ""; r++ {
+			if r >= 0xD800 && r <= 0xDFFF {
+				continue // surrogates are not characters
+			}
 			switch dnfAtRune(sum.pos, r) {
 			case -1:
 				bad = fmt.Sprintf("cannot evaluate the definition at %q", r)
